@@ -9,7 +9,7 @@ import ast
 import z3
 
 from . import spec as S
-from .spec import Opt, BoolV, RealV, SliceV, SeqV, TupV, MapV, StrV, NanV, ObjV, AbsV, SliceSeqV, SortedItemsV
+from .spec import Opt, BoolV, RealV, SliceV, SeqV, TupV, MapV, StrV, NanV, ObjV, AbsV, SliceSeqV, SortedItemsV, TupSeqV
 from . import engine as E
 
 I = E.I
@@ -130,6 +130,8 @@ def call(ex, node, name, st):
             return I(S.f_len(v.t))
         if isinstance(v, TupV):
             return I(len(v.items))
+        if isinstance(v, (SliceSeqV, TupSeqV)):
+            return I(v.n)
         if isinstance(v, tuple) and v and v[0] == "range":
             return I(S.rlen(v[1], v[2], v[3]))
         if isinstance(v, tuple) and v and v[0] == "set":
@@ -218,7 +220,25 @@ def call(ex, node, name, st):
             return SeqV(v.t, name)
         if isinstance(v, TupV):
             return TupV(v.items, name)
+        if isinstance(v, TupSeqV):
+            return TupSeqV(v.n, v.comps, name)
+        if isinstance(v, SliceSeqV):
+            return v
         raise E.Unsupported(f"{name}() of {v!r}")
+    if name == "product":
+        # itertools.product of symbolic sequences: only the single-factor case (a sequence of 1-tuples) is modelled
+        facs = []
+        for x in node.args:
+            if isinstance(x, ast.Starred):
+                tv = ex.eval(x.value, st)
+                if not isinstance(tv, TupV):
+                    raise E.Unsupported("product(*symbolic)")
+                facs.extend(tv.items)
+            else:
+                facs.append(ex.eval(x, st))
+        if len(facs) == 1 and isinstance(facs[0], SliceSeqV) and not node.keywords:
+            return TupSeqV(facs[0].n, [facs[0]], "tuple")
+        raise E.Unsupported(f"product of {len(facs)} factors")
     if name == "set":
         v = A(0)
         if isinstance(v, (SeqV, TupV)):
